@@ -344,6 +344,29 @@ where
         self.remainders.element_bits()
     }
 
+    /// Verification hook: per slot `(is_occupied, is_continuation, is_shifted, remainder)` and the
+    /// element counter.
+    #[cfg(feature = "verif")]
+    pub fn verif_state(&self) -> (Vec<(bool, bool, bool, usize)>, usize) {
+        let slots = (0..self.is_occupied.len())
+            .map(|i| {
+                (
+                    self.is_occupied[i],
+                    self.is_continuation[i],
+                    self.is_shifted[i],
+                    self.remainders.get(i as u64),
+                )
+            })
+            .collect();
+        (slots, self.n_elements)
+    }
+
+    /// Verification hook: number of remainder slots actually allocated.
+    #[cfg(feature = "verif")]
+    pub fn verif_remainders_len(&self) -> u64 {
+        self.remainders.len()
+    }
+
     fn calc_quotient_remainder(&self, obj: &T) -> (usize, usize) {
         let bits_remainder = self.bits_remainder();
         let fingerprint = self.buildhasher.hash_one(obj);
